@@ -1904,11 +1904,27 @@ class JobsCursor:
             Implicit and explicit sp prefixes are equivalent and can be treated
             identically for this purpose.
             """
-            return key.split(".", 1)[-1]
+            if "." in key and key.split(".", 1)[0] in ("sp", "doc"):
+                return key.split(".", 1)[1]
+            return key
 
         def _is_doc_key(key):
             """Check if a key is a document key."""
             return "." in key and key.split(".", 1)[0] == "doc"
+
+        def _get_nested(mapping, key):
+            """Get the value of a (dotted) key from a nested mapping."""
+            value = mapping
+            for token in key.split("."):
+                value = value[token]
+            return value
+
+        def _get_nested_default(mapping, key):
+            """Get the value of a (dotted) key from a nested mapping or the default."""
+            try:
+                return _get_nested(mapping, key)
+            except (KeyError, TypeError):
+                return default
 
         if isinstance(key, str):
             stripped_key = _strip_prefix(key)
@@ -1922,32 +1938,27 @@ class JobsCursor:
                 if _is_doc_key(key):
 
                     def keyfunction(job):
-                        return job.document[stripped_key]
+                        return _get_nested(job.document, stripped_key)
 
                 else:
 
                     def keyfunction(job):
-                        return job.cached_statepoint[stripped_key]
+                        return _get_nested(job.cached_statepoint, stripped_key)
 
             else:
                 if _is_doc_key(key):
 
                     def keyfunction(job):
-                        return job.document.get(stripped_key, default)
+                        return _get_nested_default(job.document, stripped_key)
 
                 else:
 
                     def keyfunction(job):
-                        return job.cached_statepoint.get(stripped_key, default)
+                        return _get_nested_default(job.cached_statepoint, stripped_key)
 
         elif isinstance(key, Iterable):
-            sp_keys = []
-            doc_keys = []
-            for k in key:
-                if _is_doc_key(k):
-                    doc_keys.append(_strip_prefix(k))
-                else:
-                    sp_keys.append(_strip_prefix(k))
+            # The label of a group lists the values in the order of the keys.
+            keys = [(_is_doc_key(k), _strip_prefix(k)) for k in key]
 
             if default is None:
                 if _filter is None:
@@ -1957,16 +1968,20 @@ class JobsCursor:
 
                 def keyfunction(job):
                     return tuple(
-                        [job.cached_statepoint[k] for k in sp_keys]
-                        + [job.document[k] for k in doc_keys]
+                        _get_nested(
+                            job.document if is_doc else job.cached_statepoint, k
+                        )
+                        for is_doc, k in keys
                     )
 
             else:
 
                 def keyfunction(job):
                     return tuple(
-                        [job.cached_statepoint.get(k, default) for k in sp_keys]
-                        + [job.document.get(k, default) for k in doc_keys]
+                        _get_nested_default(
+                            job.document if is_doc else job.cached_statepoint, k
+                        )
+                        for is_doc, k in keys
                     )
 
         elif key is None:
